@@ -159,8 +159,8 @@ PROPS["C18"] = {
     "workers": False,
     "special": _c18.special,
     "technique": "history monitor over fresh processes: concurrent results vs a sequential reference process, first use of the lazy tables raced through hook H3 gates/delays; thorough adds ThreadSanitizer and Miri",
-    "level_text": "A reference process evaluates a generated case list sequentially (also: repeated calls and calls interleaved with other expressions); then fresh processes (lazy tables uninitialised) start 2..64 threads on a barrier, every thread walking its own permutation of the cases on shared Arc values, clones and fresh parses, with a rendez-vous before first use of each lazy table and delays of 0 / 50 us / 5 ms injected inside the initialisers (hook H3); every answer (state, next_change, 16 intervals, 3 daily schedules, holiday-calendar facts, inferred zone and country) is compared with the reference and identifies (thread, step, case). Thorough repeats the race under ThreadSanitizer (-Zbuild-std) and a reduced race under Miri with several scheduler seeds. Exploration of interleavings: the evidence reports in how many runs first use was actually contended.",
-    "rule": "4 case lists (thorough 10) of 400 seeded (expression, context in {none, synthetic calendar, embedded country, fixed zone, coordinates -> inferred zone+country}, instant) x 50 (thorough 200) fresh processes each over threads {2,4,16,64} x initialiser delay {0, 50 us, 5 ms} x gate on/off. evaluations = single evaluations of a case; distinct_nontrivial = distinct cases by hash (all are non-trivial: each yields a multi-part answer).",
+    "level_text": "A reference process evaluates a generated case list sequentially and probes history dependence (repeated calls; each case re-evaluated right after adversarial neighbours - same expression in another context / another expression in the same context at t-1d, t, t+1d; evaluated alone in a fresh thread; values sharing ONE parsed expression through clone + with_context evaluated alternately on the same day against independently parsed values); then fresh processes (lazy tables uninitialised) start 2..64 threads on a barrier, every thread walking its own permutation of the cases on shared Arc values, clones and fresh parses, with a rendez-vous before first use of each lazy table and delays of 0 / 50 us / 5 ms injected inside the initialisers (hook H3); every answer (state, next_change, 16 intervals, 3 daily schedules, holiday-calendar facts, inferred zone and country) is compared with the reference and identifies (thread, step, case). Thorough repeats the race under ThreadSanitizer (-Zbuild-std) and a reduced race (holiday tables only, light answers) under Miri with several scheduler seeds. Exploration of interleavings: the evidence reports in how many runs first use was actually contended.",
+    "rule": "4 case lists (thorough 10) of 400 seeded (expression, context in {none, synthetic calendar, embedded country, fixed zone, coordinates -> inferred zone+country}, instant) x 36 (thorough 200) fresh processes each over threads {2,4,16,64} x initialiser delay {0, 50 us, 5 ms} x gate on/off. evaluations = single evaluations of a case; distinct_nontrivial = distinct cases by hash (all are non-trivial: each yields a multi-part answer).",
     "assumptions": ["answers are compared as formatted strings of the public results", "Miri cannot run the tz-finder within budget: tz/country lazies are raced natively and under TSan only", "step budgets (hook H1, thread-local) make unbounded calls deterministic-cost; a budget cut is part of the compared answer"],
 }
 
@@ -171,7 +171,7 @@ PROPS["C12"] = {
     "special": _c12.special,
     "technique": "differential monitor across the FFI boundary: CPython drives the built extension module, every result compared with the Rust core's answer for the documented equivalent context",
     "level_text": "The extension module is built from /repo's working tree (as shipped, hooks off) and imported by the system CPython. Cases generated by the harness cover constructor argument combinations (timezone x country {none, valid, invalid} x coords {none, valid, invalid} x auto flags {True, False, None, omitted}), valid and invalid expressions, naive and aware datetimes in 10 zones, and the methods state, is_*, next_change, intervals(start[, end]), normalize, str, repr, validate; expected answers are computed by the Rust core for the context the constructor's documentation prescribes. The driver compares local fields, zone key and utc offset of every returned datetime, exception classes, None for 10000-01-01, and flags any pyo3 PanicException. Exploration.",
-    "rule": "seeded: ~2500 constructor cases quick (40000 thorough) x up to 10 calls each, 16 driver processes; datetimes cross the process boundary as (local fields | unix timestamp, zone key). The one constructor combination the documentation does not settle (timezone + coords + auto_timezone=False: are coordinates kept for sun events?) is judged on expressions without events only; a datetime comparison abstains (counted) when Python's tzdata and chrono-tz disagree on the offset of that local time. Non-trivial = object built and called; distinct by hash of the constructor arguments.",
+    "rule": "seeded: ~40000 constructor cases quick (600000 thorough) x up to 10 calls each, 16 driver processes; datetimes cross the process boundary as (local fields | unix timestamp, zone key). The one constructor combination the documentation does not settle (timezone + coords + auto_timezone=False: are coordinates kept for sun events?) is judged on expressions without events only; a datetime comparison abstains (counted) when Python's tzdata and chrono-tz disagree on the offset of that local time. Non-trivial = object built and called; distinct by hash of the constructor arguments.",
     "assumptions": ["the Rust core is the reference (decided by C01-C11)", "pyo3's datetime conversions are part of what is observed", "system tzdata vs chrono-tz differences are abstained on"],
 }
 
